@@ -144,10 +144,11 @@ def strategy(draw):
     opt = lambda: st.one_of(st.none(), st.integers(0, n))  # noqa: E731
     which = draw(st.integers(0, 7))
     opts = {"head": None, "tail": None, "sample": None, "random_state": None}
+    # (head / tail may exceed the number of rows: all rows are selected then)
     if which in (0, 3, 4, 6):
-        opts["head"] = draw(st.integers(0, n))
+        opts["head"] = draw(st.integers(0, n + 2))
     if which in (1, 3, 5, 6):
-        opts["tail"] = draw(st.integers(0, n))
+        opts["tail"] = draw(st.integers(0, n + 2))
     if which in (2, 4, 5, 6):
         opts["sample"] = draw(st.integers(0, n))
         opts["random_state"] = draw(st.one_of(st.integers(0, 50), st.integers(0, 50), st.none()))
